@@ -376,7 +376,7 @@ def run(ctx: Ctx) -> int:
                      {**bad, "code": code, "shape": rec["shape"]}, classify(lang, rec["shape"], bad, code))
     rep.notes["generation_refused_untranslatable_by_fn_to_sympy"] = n_refused
     rep.notes["cases_conforming"] = n_ok
-    if n_ok < 50:
+    if n_ok < 50 and not rep.violations:
         raise MachineryError(f"vacuity: only {n_ok} generated functions conformed")
     for s in scns[:2]:
         rep.sample({"content": s["c"], "point": s["pts"][1]})
